@@ -20,7 +20,7 @@ from common.util import Result, err_kind
 from common import meshes, routing
 
 ID = 'C12'
-N = {'quick': 700, 'thorough': 16000}
+N = {'quick': 700, 'thorough': 10000}
 LEAN_MODULES = ['GnpyProofs.Props.C12']
 THEOREMS = [f'Gnpy.Route.{t}' for t in (
     'linkDisjoint_checker', 'allDisjoint_checker', 'linkDisjoint_symm', 'linkDisjoint_iff', 'oms_disjoint_iff_links',
